@@ -2,3 +2,6 @@ import BalmProofs.Props.C17
 #print axioms Balm.Net.ofExprs_congr
 #print axioms Balm.KeyBits.key_injective
 #print axioms Balm.BExpr.eval_congr
+#print axioms Balm.TSys.Iso.reach
+#print axioms Balm.TSys.Iso.attr
+#print axioms Balm.TSys.isAttr_tsOf
